@@ -94,6 +94,7 @@ typedef std::vector<unsigned char> Bytes;
 static FILE* out = stdout;
 static std::map<long, std::vector<CK_ULONG> > results;   // op number -> handles it returned
 static long opNo = 0;
+static std::map<long, Bytes> outs;    // op number -> bytes an encrypt / sign call returned (for `decrelay` / `verrelay`)
 static std::map<long, Bytes> blobs;   // op number -> bytes a wrap call returned (for `unwrap ... blob:@k[,mutation]`)
 static CK_ULONG maxHandleSeen = 0;
 static std::string gOpsFile, gSelf;       // for `reexec`
@@ -535,12 +536,14 @@ static void run(const std::vector<std::string>& t) {
 		CK_RV rv = op == "enc" ? C_Encrypt(h, dp, d.size(), ob.ptr(), &ob.len) : op == "dec" ? C_Decrypt(h, dp, d.size(), ob.ptr(), &ob.len)
 			: op == "sign" ? C_Sign(h, dp, d.size(), ob.ptr(), &ob.len) : op == "digest" ? C_Digest(h, dp, d.size(), ob.ptr(), &ob.len)
 			: op == "encupd" ? C_EncryptUpdate(h, dp, d.size(), ob.ptr(), &ob.len) : C_DecryptUpdate(h, dp, d.size(), ob.ptr(), &ob.len);
+		if (rv == CKR_OK && !ob.null && ob.len <= ob.cap) outs[opNo] = Bytes(ob.b.begin(), ob.b.begin() + ob.len);
 		fprintf(out, "= %lu %lu%s\n", rv, h, ob.report(rv).c_str());
 	}
 	else if (op == "encfinal" || op == "decfinal" || op == "sigfinal" || op == "digfinal") {   // op h outbuf
 		CK_ULONG h = H(1); OutBuf ob(t[2]);
 		CK_RV rv = op == "encfinal" ? C_EncryptFinal(h, ob.ptr(), &ob.len) : op == "decfinal" ? C_DecryptFinal(h, ob.ptr(), &ob.len)
 			: op == "sigfinal" ? C_SignFinal(h, ob.ptr(), &ob.len) : C_DigestFinal(h, ob.ptr(), &ob.len);
+		if (rv == CKR_OK && !ob.null && ob.len <= ob.cap) outs[opNo] = Bytes(ob.b.begin(), ob.b.begin() + ob.len);
 		fprintf(out, "= %lu %lu%s\n", rv, h, ob.report(rv).c_str());
 	}
 	else if (op == "sigupd" || op == "verupd" || op == "digupd") {   // op h data
@@ -589,6 +592,29 @@ static void run(const std::vector<std::string>& t) {
 		// the second key of CKM_CONCATENATE_BASE_AND_KEY is named by reference in the op line: echo its handle value
 		if (M.m.mechanism == CKM_CONCATENATE_BASE_AND_KEY) fprintf(out, "= %lu %lu %lu %lu %lu\n", rv, h, bk, rv == CKR_OK ? hk : 0UL, (unsigned long)M.obj);
 		else fprintf(out, "= %lu %lu %lu %lu\n", rv, h, bk, rv == CKR_OK ? hk : 0UL);
+	}
+	else if (op == "decrelay" || op == "verrelay") {
+		// feed the token's own earlier outputs back (C10): the op expands into real calls whose lines are printed in the usual format
+		//   decrelay h o1,o2,… flip|same single|multi seed       verrelay h datahex sigop flip|same single|multi seed
+		static bool nested = false; if (nested) { fprintf(out, "= BADOP\n"); return; }
+		CK_ULONG h = H(1); bool isDec = op == "decrelay"; Bytes data, sig; unsigned seed = (unsigned)N(isDec ? 5 : 6);
+		bool doFlip = t[isDec ? 3 : 4] == "flip", multi = t[isDec ? 4 : 5] == "multi";
+		if (isDec) { for (auto& e : splitArgs(t[2])) { Bytes& b = outs[atol(e.c_str())]; data.insert(data.end(), b.begin(), b.end()); } if (doFlip && !data.empty()) data[seed % data.size()] ^= (unsigned char)(1 << (seed / 7 % 8)); }
+		else { if (t[2] != ".") unhex(t[2], data); sig = outs[atol(t[3].c_str())]; if (doFlip && !sig.empty()) sig[seed % sig.size()] ^= (unsigned char)(1 << (seed / 7 % 8)); }
+		fprintf(out, "= 0\n");      // result of the relay line itself
+		std::vector<std::string> lines; char hb[32]; snprintf(hb, sizeof hb, "%lu", h);
+		auto hexOrDot = [&](const Bytes& b, size_t a, size_t e) { return a >= e ? std::string(".") : hex(b.data() + a, e - a); };
+		if (!multi) lines.push_back(isDec ? std::string("dec ") + hb + " " + hexOrDot(data, 0, data.size()) + " 700" : std::string("verify ") + hb + " " + hexOrDot(data, 0, data.size()) + " " + hexOrDot(sig, 0, sig.size()));
+		else {
+			size_t pos = 0; unsigned x = seed * 2654435761u + 12345u;
+			for (int i = 0; i < 3; i++) { x = x * 1103515245u + 12345u; size_t n = data.size() - pos ? (x >> 8) % (data.size() - pos + 1) : 0; lines.push_back(std::string(isDec ? "decupd " : "verupd ") + hb + " " + hexOrDot(data, pos, pos + n) + (isDec ? " 700" : "")); pos += n; }
+			lines.push_back(std::string(isDec ? "decupd " : "verupd ") + hb + " " + hexOrDot(data, pos, data.size()) + (isDec ? " 700" : ""));
+			lines.push_back(isDec ? std::string("decfinal ") + hb + " 700" : std::string("verfinal ") + hb + " " + hexOrDot(sig, 0, sig.size()));
+		}
+		nested = true;
+		for (auto& l : lines) { std::vector<std::string> tt; { std::stringstream ss(l); std::string w; while (ss >> w) tt.push_back(w); } fprintf(out, "%s\n", l.c_str()); fflush(out); run(tt); fflush(out); }
+		nested = false;
+		return;
 	}
 	else if (op == "kcv") {     // kcv h obj : key type, value and check value of a secret key, read through the API (C13: the check value is the standard one)
 		CK_ULONG h = H(1), o = H(2); CK_ULONG kt = (CK_ULONG)-1; unsigned char val[8192], cv[64];
